@@ -5,6 +5,7 @@ Terms: {"v":name} | {"c":text} | {"l":[params],"b":body} | {"f":func,"a":[args]}
   {"op":"stack","ops":[["push"]|["pop"]|["def",name,val]|["get",name]]}  -> {"gets":[val|null,..]}
   {"op":"strip","q":T}                             -> {"q":T,"mds":[T]}
   {"op":"simp","q":T,"n":k,"fuel":k}               -> {"q":T,"n":k,"bang":bool}
+  {"op":"pre","q":T}                               -> {"q":T,"aliasRisk":bool,"shadowRisk":bool}   (the query as simplify_chained_calls receives it)
   {"op":"wprint","q":T}                            -> {"toks":[..]} | {"none":true}
   {"op":"wparse","toks":[..]}                      -> {"q":T} | {"none":true}
   {"op":"procmd","items":[[kind,key,val]..],"keys":[..]}   -> {"err":cls} | {"types":[..],"fns":[..],"enums":[..],"injects":[..],"scripts":[..]}
@@ -150,6 +151,9 @@ def handleReq (store : Store) (j : Json) : Except String Json := do
     let fuel ← (← j.getObjVal? "fuel").getNat?
     let r := simp fuel [] n q
     return Json.mkObj [("q", qToJson r.1), ("n", r.2), ("bang", hasBang r.1)]
+  else if op == "pre" then
+    let q ← qOfJson (← j.getObjVal? "q")
+    return Json.mkObj [("q", qToJson (preSimp q)), ("aliasRisk", aliasRisk (preSimp q)), ("shadowRisk", shadowRisk (preSimp q))]
   else if op == "wprint" then
     let q ← qOfJson (← j.getObjVal? "q")
     match wprint q with
@@ -175,7 +179,8 @@ def handleReq (store : Store) (j : Json) : Except String Json := do
     let q ← qOfJson (← j.getObjVal? "q")
     let q2 ← qOfJson (← j.getObjVal? "q2")
     let fuel := 4000
-    let base := [("shadowRisk", Json.bool (shadowRisk (normStyle (strip q).1) || shadowRisk (normStyle (strip q2).1))),
+    let base := [("shadowRisk", Json.bool (shadowRisk (preSimp q) || shadowRisk (preSimp q2))),
+                 ("aliasRisk", Json.bool (aliasRisk (preSimp q) || aliasRisk (preSimp q2))),
                  ("argNameRisk", Json.bool (argNameRisk q || argNameRisk q2))]
     if kind == "alpha" then
       return Json.mkObj ([("related", Json.bool (alphaB q q2))] ++ base)
